@@ -1380,11 +1380,11 @@ impl<T: El> MapWorld<T> {
     }
 
     fn op_reserve(&mut self, op: Op, obs: &mut H128) -> VResult<()> {
-        // bit 60 of a try_reserve argument: memory pressure - while the call runs, every allocation larger
+        // key field 1 on a try_reserve op: memory pressure - while the call runs, every allocation larger
         // than the largest table this map owns fails (an environment answer: Err(AllocError) is fine, Ok
         // must be as good as any other Ok)
-        let pressure = op.k == OpK::TryReserve && op.arg >> 60 & 1 == 1;
-        let n = (op.arg & !(1 << 60)) as usize;
+        let pressure = op.k == OpK::TryReserve && op.key == 1;
+        let n = op.arg as usize;
         let len = self.m.len();
         let fallible = op.k == OpK::TryReserve;
         // "Err leaves the contents unchanged": the elements, not the capacity (a failed try_reserve
